@@ -104,7 +104,11 @@ func (s *Signing) Run(
 	}
 
 	sigChn := make(chan tssCommon.SignatureData)
-	outChn := make(chan tss.Message)
+	// The party writes to outChn while it holds its lock. Once the outbound pump has stopped (a send
+	// failed, the attempt was cancelled) a blocking write would keep ProcessInboundMessages, and with
+	// it Run, from ever returning: the failure would never be reported and the attempt never retried.
+	// Everything a party can emit during one attempt fits into the buffer.
+	outChn := make(chan tss.Message, len(parties)*10)
 	kdd := big.NewInt(0)
 	s.Party, err = signing.NewLocalParty(
 		s.msg,
